@@ -828,6 +828,21 @@ func (e *wireExec) textMut(s *XStep) {
 	if argNode == nil {
 		argNode, _ = args.New().ToIPLD()
 	}
+	// a second, purpose-built argument value: long multi-byte strings, bytes, lists, nesting
+	long := strings.Repeat("é", 40+s.At%70) + "ok"
+	rich := cbMap(cbText("s"), cbText(long), cbText("n"), cbInt(7), cbText("l"), cbArray(cbInt(1), cbInt(2), cbInt(3), cbText(long), cbInt(5)),
+		cbText("b"), cbBytes([]byte(long)), cbText("m"), cbMap(cbText("x"), cbInt(1), cbText("y"), cbText(long)), cbText("a"), cbText("日本語"+long),
+		cbText("e"), cbText(""), cbText("el"), cbArray(), cbText("f"), cbFloat64(1.5)).Encode()
+	var richNode datamodel.Node
+	if n, err := ipld.Decode(rich, dagcbor.Decode); err == nil {
+		richNode = n
+	} else {
+		richNode = argNode
+	}
+	if s.Val%2 == 0 {
+		argNode, richNode = richNode, argNode
+	}
+	_ = richNode
 	switch s.Field {
 	case "policy":
 		for _, w := range e.toks {
@@ -864,7 +879,9 @@ func (e *wireExec) textMut(s *XStep) {
 			})
 		}
 	case "selector":
-		sels := []string{".", ".a", ".a.b", ".l[0]", ".l[-1]", ".l[1:3]", ".m.x?", ".l[]", ".s[0:2]", `.["a b"]`, ".a?.b?", ".l[:]", ".l[-9223372036854775808:9223372036854775807]"}
+		sels := []string{".", ".a", ".a.b", ".l[0]", ".l[-1]", ".l[1:3]", ".m.x?", ".l[]", ".s[0:2]", `.["a b"]`, ".a?.b?", ".l[:]", ".l[-9223372036854775808:9223372036854775807]",
+			".s[0:]", ".s[1:]", ".s[-1:]", ".s[:-1]", ".s[-100:100]", ".s[5:2]", ".a[2:]", ".b[0:99]", ".b[-1]", ".b[1:]", ".l[9223372036854775807]", ".l[-9223372036854775808]", ".l[3:1]", ".l[-6]", ".l[5]",
+			".m.y[1:]", ".l[3][-2:]", ".e[0:]", ".el[0]?", ".el[-1]?", ".s[-43:]", ".s[:41]"}
 		for _, w := range e.toks {
 			if w == nil || w.spec.Kind != "dlg" {
 				continue
